@@ -12,6 +12,7 @@ import (
 	"fmt"
 	"time"
 
+	abci "github.com/cometbft/cometbft/abci/types"
 	sdk "github.com/cosmos/cosmos-sdk/types"
 	transfertypes "github.com/cosmos/ibc-go/v8/modules/apps/transfer/types"
 	clienttypes "github.com/cosmos/ibc-go/v8/modules/core/02-client/types"
@@ -26,6 +27,11 @@ import (
 )
 
 const pkPort = "transfer"
+
+// pkLastRecvEvents: the events the transfer stack emitted during the last ibcRecv callback (a
+// packet-forward-middleware forward sends a new packet from inside OnRecvPacket: its send_packet
+// event is the only place the forwarded packet's bytes can be read from)
+var pkLastRecvEvents []abci.Event
 
 // pkChan is one hub-side transfer channel.
 type pkChan struct {
@@ -78,6 +84,8 @@ func (f *Fix) mkChannel(n int, clientID, hubChan, cpChan string) {
 // must exist and is deleted, then the callback; a callback error fails (reverts) the whole message.)
 func (f *Fix) ibcRecv(pkt channeltypes.Packet, proofHeight uint64, relayer sdk.AccAddress) (res string) {
 	ck := f.App.IBCKeeper.ChannelKeeper
+	pkLastRecvEvents = nil
+	pkLastRecvErr = nil
 	// core RecvPacket checks the channel state before anything else (OPEN / FLUSHING / FLUSHCOMPLETE)
 	if !f.chanAccepts(pkt.DestinationPort, pkt.DestinationChannel) {
 		return "chanClosed"
@@ -89,9 +97,12 @@ func (f *Fix) ibcRecv(pkt channeltypes.Packet, proofHeight uint64, relayer sdk.A
 		ck.SetPacketReceipt(ctx, pkt.DestinationPort, pkt.DestinationChannel, pkt.Sequence)
 		ctx = f.proofCtx(ctx, commontypes.RollappPacket_ON_RECV, pkt, proofHeight)
 		cctx, write := ctx.CacheContext()
+		cctx = cctx.WithEventManager(sdk.NewEventManager())
 		ack := f.App.TransferStack.OnRecvPacket(cctx, pkt, relayer)
+		pkLastRecvEvents = nil
 		if ack == nil || ack.Success() {
 			write()
+			pkLastRecvEvents = cctx.EventManager().ABCIEvents()
 		}
 		if ack == nil {
 			res = "async"
@@ -109,6 +120,7 @@ func (f *Fix) ibcRecv(pkt channeltypes.Packet, proofHeight uint64, relayer sdk.A
 		return ck.WriteAcknowledgement(ctx, chanCap, pkt, ack)
 	})
 	if err != nil {
+		pkLastRecvErr = err
 		if IsPanic(err) {
 			return "panic"
 		}
@@ -116,6 +128,9 @@ func (f *Fix) ibcRecv(pkt channeltypes.Packet, proofHeight uint64, relayer sdk.A
 	}
 	return res
 }
+
+// pkLastRecvErr: the error (or recovered panic, with its stack) of the last failed ibcRecv
+var pkLastRecvErr error
 
 // chanAccepts: the channel end is in a state in which core IBC accepts packets / acknowledgements
 func (f *Fix) chanAccepts(port, channel string) bool {
@@ -180,6 +195,10 @@ func (f *Fix) proofCtx(ctx sdk.Context, typ commontypes.RollappPacket_Type, pkt 
 			after = append(after, mk(t, 1))
 		}
 	}
+	// ... and an earlier message of the SAME kind for the same packet with another proof height: the decorator
+	// keeps one height per (kind, port, channel, sequence) and the last message of the transaction wins
+	// (CtxWithPacketProofHeight overwrites); the message of interest is the last of its kind
+	before = append(before, mk(typ, 1<<41))
 	msgs := append(append(before, mk(typ, proofHeight)), after...)
 	out, err := commontypes.NewIBCProofHeightDecorator().AnteHandle(ctx, pkTx{msgs}, false,
 		func(c sdk.Context, _ sdk.Tx, _ bool) (sdk.Context, error) { return c, nil })
